@@ -2,6 +2,7 @@ CONSTANTS
   SeriesFirst = FALSE
   CommitSeqBeforeWrite = FALSE
   FreezeBeforeMetaFlush = TRUE
+  ExpireOnConsumed = FALSE
   AtomicRound = TRUE
   Name = {"m1", "m2"}
   MaxEntries = 3
